@@ -1,6 +1,6 @@
 (* Judge09.v — evaluation of harness cases for C09 (written Spec files read back equal, in both encodings). *)
 From Coq Require Import String Ascii List Bool Arith NArith ZArith.
-From CDI Require Import Base SpecModel Doc Decode Codec JsonString.
+From CDI Require Import Base SpecModel Doc Decode Codec JsonString JsonStringFix.
 Import ListNotations.
 Open Scope string_scope.
 
@@ -25,7 +25,7 @@ Definition leading_blank_multiline (s : string) : bool :=
 (* 0: outside every class; 1: C09/json-c1-controls; 2: C09/json-nel; 3: C09/yaml-leading-blank-multiline.  enc: 0 = .json, 1 = .yaml, 2 = no extension (YAML) *)
 Definition known_class (enc : nat) (s : spec) : nat :=
   let strs := spec_strings s in
-  if Nat.eqb enc 0 then (if existsb has_c1 strs then 1 else if existsb has_nel strs then 2 else 0)
+  if Nat.eqb enc 0 then 0      (* repaired defect D20: no string is set aside for .json files any more *)
   else (if existsb leading_blank_multiline strs then 3 else 0).
 
 (* one written file: the Spec handed to Cache.WriteSpec, the encoding, the generic JSON image of json.Marshal(spec), the Spec
@@ -46,9 +46,9 @@ Inductive case09 :=
 Fixpoint has_infix (p s : string) : bool :=
   has_prefix p s || match s with String _ r => has_infix p r | EmptyString => false end.
 (* the member as encoding/json writes it: the key, a colon, the literal of the model *)
-Definition note_member (s : string) : string := """example.com/note"":""" ++ json_escape s ++ """".
+Definition note_member (s : string) : string := """example.com/note"":""" ++ spec_json_escape s ++ """".
 
-Definition str_class (s : string) : nat := if has_c1 s then 1 else if has_nel s then 2 else 0.
+Definition str_class (s : string) : nat := 0.
 Definition opt_string_eqb (a c : option string) : bool :=
   match a, c with Some x, Some y => String.eqb x y | None, None => true | _, _ => false end.
 
@@ -60,7 +60,7 @@ Definition corr09 (c : case09) : bool :=
       Nat.eqb k (known_class enc s) && spec_ranges s
   | CaseStr s valid escaped scanned k =>
       Bool.eqb (valid_utf8 s) valid &&                       (* the hypothesis of json_string_layer is utf8.ValidString *)
-      String.eqb (json_escape s) escaped &&                  (* the escaping model is encoding/json *)
+      String.eqb (spec_json_escape s) escaped &&             (* the escaping model is the library's writer: encoding/json, then escapeUnreadable *)
       opt_string_eqb (yaml_dq_scan escaped) scanned &&       (* the scanner model on the real literal is the real reader *)
       Nat.eqb k (str_class s)
   | CaseLit s file => has_infix (note_member s) file       (* the library's JSON writer is encoding/json with HTML escaping *)
